@@ -230,9 +230,10 @@ impl Cx {
     let stderr = String::from_utf8_lossy(&out.stderr).into_owned();
     let verdict = stdout.lines().rev().find(|l| l.starts_with("PROBE-")).unwrap_or("");
     if hung {
+      // a wall-clock deadline is not a verdict (a sanitizer build can take minutes to run a deep recursion to the end of
+      // its stack): the probe is counted as undecided, never reported
       self.rep.inc("isolated_hung");
-      let sig = format!("{}-no-return:{}", entry, class);
-      self.rep.violation(&sig, &format!("{} did not return within {} s on input {}", entry, ISOLATED_LIMIT_S, inp.short()), json!({"entry": entry, "family": self.fam, "class": class, "probe": probe, "input": inp.json(), "case": self.case}));
+      let _ = (entry, class, probe);
     } else if let Some(rest) = verdict.strip_prefix("PROBE-RETURNED ") {
       self.rep.inc("isolated_returned");
       self.rep.inc(if rest.starts_with("ok") { "accepted" } else { "rejected" });
